@@ -227,6 +227,19 @@ def derive_ops(ctx):
       'sequence_with_plugs': lambda: H.PhaseSequence(src).with_plugs(p=ctx['SubPlugA']).nodes[0],
       'sequence_load_code_info': lambda: H.PhaseSequence(src).load_code_info().nodes[0],
       'group_with_args': lambda: H.PhaseGroup(main=[src]).with_args(k=8).main.nodes[0],
+      # a collection derived with *no* overrides (e.g. **station_overrides == {})
+      # the *collection* is the source here: returns (source collection, the
+      # phase of the derived collection that the modification is applied to)
+      'sequence_with_args_empty': lambda: (
+          lambda seq: (seq, seq.with_args().nodes[0]))(H.PhaseSequence(src)),
+      'subtest_with_args_empty': lambda: (
+          lambda st: (st, st.with_args().nodes[0]))(H.Subtest('st', src)),
+      'group_with_args_empty': lambda: (
+          lambda g: (g, g.with_args().setup.nodes[0]))(H.PhaseGroup(setup=[src])),
+      'sequence_with_plugs_empty': lambda: (
+          lambda seq: (seq, seq.with_plugs().nodes[0]))(H.PhaseSequence(src)),
+      'sequence_with_args_kw': lambda: (
+          lambda seq: (seq, seq.with_args(k=9).nodes[0]))(H.PhaseSequence(src)),
       'nested_sequence_copy': lambda: H.PhaseSequence(H.PhaseSequence(src)).nodes[0].nodes[0],
   }
   return ops
@@ -270,7 +283,10 @@ DERIVES = ['with_args', 'with_args_empty', 'with_plugs_matching',
            'BranchSequence', 'PhaseGroup_main', 'PhaseGroup_teardown',
            'PhaseGroup_with_context', 'PhaseGroup_wrap', 'Test',
            'sequence_with_args', 'sequence_with_plugs',
-           'sequence_load_code_info', 'group_with_args', 'nested_sequence_copy']
+           'sequence_load_code_info', 'group_with_args', 'nested_sequence_copy',
+           'sequence_with_args_empty', 'subtest_with_args_empty',
+           'group_with_args_empty', 'sequence_with_plugs_empty',
+           'sequence_with_args_kw']
 MODS = ['options.timeout_s', 'options.name', 'options.update',
         'measurements.append', 'measurements.pop', 'plugs.clear',
         'diagnosers.append', 'extra_kwargs.set', 'entry:measurement.in_range',
@@ -345,6 +361,13 @@ def run_derive(case):
     return {'sig': case, 'violations': [{
         'mechanism': 'derive-operation-raised:%s' % type(e).__name__,
         'detail': {'derive': dname, 'error': str(e)[:120]}}], 'counters': c}
+  if isinstance(derived, tuple):
+    # the operation was applied to a collection: that collection is the source
+    src, derived = derived
+    before = fingerprint(src)
+    if any(n is derived for n, _ in [(x, 0) for x in src.all_phases()]):
+      viol.append({'mechanism': 'derived-object-is-the-source:' + dname,
+                   'detail': {'derive': dname}})
   c['fingerprints_compared'] += 1
   d0 = first_diff(before, fingerprint(src))
   if d0:
